@@ -61,6 +61,13 @@ func pick(name string, full, compact, tiny []int, gr int) int {
 func mkElem(tag string, gr int) (map[string]interface{}, *elemSpec) {
 	e := &elemSpec{}
 	m := map[string]interface{}{"jsonrpc": "2.0"}
+	// the server does not validate the version member of a request; its replies say "2.0" regardless
+	switch pick(tag+"version", []int{0, 1, 2}, []int{0, 1}, []int{0}, gr) {
+	case 1:
+		delete(m, "jsonrpc")
+	case 2:
+		m["jsonrpc"] = "1.0"
+	}
 	e.idKind = pick(tag+"idkind", []int{0, 1, 2, 3, 4, 5, 6}, []int{0, 1, 2, 3, 4, 5, 6}, []int{0, 2, 3, 4}, gr)
 	switch e.idKind {
 	case 1:
